@@ -1,4 +1,5 @@
 """U4g: CompoundList executor (brush-core/src/interp.rs)."""
+from .common import runtime_options_item
 from vx.extract import C
 from .exec_common import exec_unit, begin_ast, end_ast, child_stub, FOOTER
 
@@ -16,6 +17,7 @@ def build(repo, findings):
     u.add(ast.item(r'^pub struct CompoundListItem\(', 'CompoundListItem').r1(keep_derive=()))
     u.add(ast.item(r'^pub enum SeparatorOperator ', 'SeparatorOperator').r1(keep_derive=()))
     end_ast(u)
+    runtime_options_item(u)
     u.prelude('exec/list_spec.rs')
     u.raw(child_stub('AndOrList', 'Node::AndOr(*self)'))
     fn = 'compound_list_execute'
